@@ -7,8 +7,8 @@ import symex
 META = {
     "level": "model_checking",
     "bounds": {
-        "quick": "every history of <=3 operations over 12 concrete operations {create s0 (bound to alternating libraries, backend result symbolic), create s1, "
-                 "destroy s0/s1, malloc, free, register, unregister, invoke by name, get_app_pointer, example-based pointer translation in s0/s1} on two sandbox "
+        "quick": "every history of <=3 operations over 13 concrete operations {create s0 (bound to alternating libraries, backend result symbolic), create s1, "
+                 "destroy s0/s1, malloc, free (tainted and sandbox-resident pointer), register, unregister, invoke by name, get_app_pointer, example-based pointer translation in s0/s1} on two sandbox "
                  "objects of the multi-instance backend, in lock-step with a reference state machine written from the property text",
         "thorough": "histories of <=4 operations",
     },
@@ -16,7 +16,7 @@ META = {
                "not created, unusable, and creation may be attempted again)",
     "assumptions": ["operation choice per step and the backend's create result are the symbolic inputs"],
 }
-NOPS = 12
+NOPS = 13
 SIZE = 1 << 32
 
 
@@ -151,6 +151,17 @@ def check_hist(ctx, depth, first):
                 i = op - 10
                 if st[i] != "C" and cellrep[i] != 0:
                     exp_abort = True      # a non-null representation cannot be translated: no live sandbox contains the cell
+            elif op == 12:
+                called = any(e[0] == 0x204 for e in side)
+                if st[0] == "C":
+                    if not called:
+                        bad = "step %d: free through a sandbox-resident pointer did not reach the backend of a created sandbox" % k
+                elif cellrep[0] != 0:
+                    exp_abort = True      # cannot even be translated
+                    if called:
+                        bad = "step %d: free outside the created window reached the backend" % k
+                elif called:
+                    bad = "step %d: free outside the created window reached the backend" % k
             if bad:
                 break
             if exp_abort:
